@@ -5,6 +5,7 @@ package httpapi
 import (
 	"net/http"
 
+	"github.com/prometheus/client_golang/prometheus"
 	"github.com/semafind/semadb/cluster"
 )
 
@@ -13,4 +14,11 @@ import (
 // verif build tag.
 func VerifSetupRouter(cnode *cluster.ClusterNode, cfg HttpApiConfig) http.Handler {
 	return setupRouter(cnode, cfg, nil)
+}
+
+// VerifSetupRouterWithMetrics is VerifSetupRouter for a deployment with
+// metrics enabled: the stack is built with the given registry (the metrics
+// listener is started on the configured metrics host and port).
+func VerifSetupRouterWithMetrics(cnode *cluster.ClusterNode, cfg HttpApiConfig, reg *prometheus.Registry) http.Handler {
+	return setupRouter(cnode, cfg, reg)
 }
